@@ -44,6 +44,8 @@ def jobs(tier):
             if tier == "quick" and n == 3 and seq.count("prep") > 1:
                 continue
             out.append({"ob": "O2", "cfg": {"seq": list(seq)}})
+    for c in classes:
+        out.append({"ob": "O5", "cfg": {"cls": c}})
     nmax = 3
     for ns in range(0, nmax + 1):
         out.append({"ob": "O4", "cfg": {"nsetups": ns}})
@@ -54,7 +56,7 @@ def jobs(tier):
 
 
 def run(job, tier):
-    return {"O1": run_gating, "O2": run_history, "O4": run_poser}[job["ob"]](job["cfg"], tier)
+    return {"O1": run_gating, "O2": run_history, "O4": run_poser, "O5": run_frame}[job["ob"]](job["cfg"], tier)
 
 
 class _O:
@@ -69,6 +71,119 @@ def get_cls(name):
         if hasattr(m, name):
             return getattr(m, name)
     raise KeyError(name)
+
+
+# ------------------------------------------------------------------------------------------ O5 write frame of run()
+class _Stop(Exception):
+    pass
+
+
+def _stop_stubs():
+    def stop(*a, **k):
+        raise _Stop()
+    return {"pyoma2.functions.fdd": {k: stop for k in ("SD_est", "SD_PreGER", "SD_svalsvec")},
+            "pyoma2.functions.ssi": {k: stop for k in ("build_hank", "SSI_fast", "SSI_poles", "SSI_multi_setup")},
+            "pyoma2.functions.plscf": {k: stop for k in ("pLSCF", "pLSCF_poles")}}
+
+
+def _frame_params():
+    rp = _O()
+    rp.br, rp.method, rp.ordmin, rp.ordmax, rp.step, rp.calc_unc, rp.nb, rp.ref_ind = 2, None, 0, 2, 1, False, 2, None
+    rp.nxseg, rp.method_SD, rp.pov, rp.DF, rp.sel_freq = 8, "per", 0.5, 0.1, None
+    rp.sc = dict(err_fn=0.01, err_xi=0.05, err_phi=0.03)
+    rp.hc = dict(conj=True, xi_max=0.1, mpc_lim=0.7, mpd_lim=0.3, cov_max=0.2)
+    return rp
+
+
+def run_frame(cfg, tier):
+    """the part of run() that precedes identification does not write into the data bound to the algorithm (which is the array the
+    setup, the other algorithms and the user share) - for data with an arbitrary NaN pattern; the identification functions
+    themselves are the environment here (they stop the run)"""
+    from symx.arr import fresh
+    cls = get_cls(cfg["cls"])
+    ms = cfg["cls"].endswith("_MS")
+    W = World(per_module=_stop_stubs())
+    tally = Tally(W, [cfg["cls"] + ".run"])
+    ex = Explorer()
+    st = {}
+
+    def body():
+        if ms:
+            data = [{"ref": fresh("r0", (1, 6), nan=True), "mov": fresh("m0", (2, 6), nan=True)},
+                    {"ref": fresh("r1", (1, 6), nan=True), "mov": fresh("m1", (1, 6), nan=True)}]
+            arrays = [d[k] for d in data for k in ("ref", "mov")]
+        else:
+            data = fresh("d", (6, 2), nan=True)
+            arrays = [data]
+        st["arrays"] = arrays
+        st["cells"] = [np.array(a, dtype=object).view(np.ndarray).copy() for a in arrays]
+        alg = W.carrier(cls, run_params=_frame_params(), data=data, fs=10.0, dt=0.1, name="a")
+        try:
+            alg.run()
+        except _Stop:
+            return "stopped at identification"
+        return "completed"
+
+    for e, (kind, res) in ex.run_all(body):
+        touched = [f"array {k} cell {list(ix)}" for k, (a, c0) in enumerate(zip(st["arrays"], st["cells"])) for ix in np.ndindex(c0.shape)
+                   if np.asarray(a, dtype=object).view(np.ndarray)[ix] is not c0[ix]]
+        why = None
+        if kind == "exc":
+            why = f"run() raised {type(res).__name__}: {res}"
+        elif touched:
+            why = f"run() wrote into the data bound to the algorithm: {touched[:3]}"
+        tally.decide(e, z3.BoolVal(bool(why)), on_sat=lambda m, why=why: cex_frame(cfg, why), with_side=False,
+                     label=f"{cfg['cls']}.run leaves the bound data untouched")
+    return tally.result(ex)
+
+
+def cex_frame(cfg, why):
+    v, d = replay_frame(cfg)
+    return {"inputs": {}, "reproduced": v, "detail": str(why) + " | " + d, "key": f"{cfg['cls']}.run:writes-data"}
+
+
+def replay_frame(cfg):
+    """real run() on data with NaN and inf samples, identification functions replaced by stoppers"""
+    import importlib
+    cls = get_cls(cfg["cls"])
+    ms = cfg["cls"].endswith("_MS")
+    rng = np.random.RandomState(3)
+
+    def holes(a):
+        a = a.copy()
+        a.flat[1], a.flat[4] = np.nan, np.inf
+        return a
+    if ms:
+        data = [{"ref": holes(rng.randn(1, 64)), "mov": holes(rng.randn(2, 64))}, {"ref": holes(rng.randn(1, 64)), "mov": holes(rng.randn(1, 64))}]
+        arrays = [d[k] for d in data for k in ("ref", "mov")]
+    else:
+        data = holes(rng.randn(64, 2))
+        arrays = [data]
+    before = [a.copy() for a in arrays]
+    saved = []
+    try:
+        for mn, d in _stop_stubs().items():
+            mod = importlib.import_module(mn)
+            for k, f in d.items():
+                if hasattr(mod, k):
+                    saved.append((mod, k, getattr(mod, k)))
+                    setattr(mod, k, f)
+        alg = object.__new__(cls)
+        alg.run_params, alg.data, alg.fs, alg.dt, alg.name = _frame_params(), data, 10.0, 0.1, "a"
+        try:
+            with np.errstate(all="ignore"):
+                alg.run()
+        except _Stop:
+            pass
+        except Exception as e:  # noqa: BLE001
+            return True, f"run() raised {type(e).__name__}: {e} before reaching identification"
+    finally:
+        for mod, k, f in saved:
+            setattr(mod, k, f)
+    for a0, a1 in zip(before, arrays):
+        if not np.array_equal(a0, a1, equal_nan=True):
+            return True, f"{cfg['cls']}.run modified the data array it was bound to (NaN/inf samples overwritten): every other algorithm and the user see the change"
+    return False, "bound data untouched"
 
 
 # ------------------------------------------------------------------------------------------ O1 gating
@@ -323,6 +438,9 @@ def run_poser(cfg, tier):
             desc.append(d)
         nn = e.choose(4 if ns <= 2 else 3, "nnames")
         names = [f"n{k}" for k in range(nn)]
+        # name lists with a repeated entry (one name per algorithm is a statement about the list, not about its distinct values)
+        if ns == 2 and nn >= 1 and e.choose(2, "repeat"):
+            names = names + [names[0]]
         st.update(desc=desc, names=names)
         obj = object.__new__(T)
         T.__init__(obj, ref_ind=[[0]] * ns, single_setups=setups, names=names)
@@ -384,6 +502,8 @@ def replay_poser(desc, names, sub=False):
 
 
 def replay(ob, cfg, inputs):
+    if ob == "O5":
+        return replay_frame(cfg)
     if ob == "O4":
         return replay_poser(inputs["desc"], inputs["names"], inputs.get("sub", False))
     return True, "deterministic finding on the real base classes (see detail in evidence)"
